@@ -135,7 +135,8 @@ def passive_power_spectrum_model(f, fc, diffusion_constant):
     diffusion_constant : float
         Diffusion constant, in (a.u.)^2/s
     """
-    return (diffusion_constant / (math.pi**2)) / (f**2 + fc**2)
+    # Square the frequency as a float: on an integer frequency axis `f**2` would wrap around silently
+    return (diffusion_constant / (math.pi**2)) / (np.multiply(f, f, dtype=float) + fc**2)
 
 
 def sphere_friction_coefficient(eta, d):
